@@ -347,6 +347,34 @@ class Inliner(object):
       body = body[1:]
     return len(body) == 1 and isinstance(body[0], ast.Return) and body[0].value is not None
 
+  def expression_form(self, h):
+    """`x = <pure>; y = <pure>; return r`  ->  the same function as a single
+    `return r[x:=.., y:=..]` (each local assigned once from a call-free
+    expression); None when the body has another shape."""
+    cache = self.__dict__.setdefault('_exprform', {})
+    if id(h) in cache:
+      return cache[id(h)][1]
+    body = list(h.body)
+    if body and isinstance(body[0], ast.Expr) and isinstance(body[0].value, ast.Constant) and \
+        isinstance(body[0].value.value, str):
+      body = body[1:]
+    out = None
+    if len(body) >= 2 and isinstance(body[-1], ast.Return) and body[-1].value is not None and all(
+        isinstance(st_, ast.Assign) and len(st_.targets) == 1 and isinstance(st_.targets[0], ast.Name)
+        and _pure(st_.value) for st_ in body[:-1]):
+      names = [st_.targets[0].id for st_ in body[:-1]]
+      if len(set(names)) == len(names) and not (set(names) & set(roles.params(h))):
+        env = {}
+        for st_ in body[:-1]:
+          env[st_.targets[0].id] = _Subst(dict(env), {}).visit(clone(st_.value))
+        ret = _Subst(dict(env), {}).visit(clone(body[-1].value))
+        h2 = clone(h)
+        h2.body = [ast.copy_location(ast.Return(value=ret), body[-1])]
+        ast.fix_missing_locations(h2)
+        out = h2
+    cache[id(h)] = (h, out)
+    return out
+
   def rewrite_expr(self, e, caller_names, hoisted, st):
     inl = self
 
@@ -360,8 +388,9 @@ class Inliner(object):
         if h is None:
           return node
         try:
-          if inl.is_expression_function(h):
-            pre, body = inl.body_for(h, node, im, caller_names)
+          h_expr = h if inl.is_expression_function(h) else inl.expression_form(h)
+          if h_expr is not None:
+            pre, body = inl.body_for(h_expr, node, im, caller_names)
             if pre and hoisted is None:
               return node
             if pre:
